@@ -143,19 +143,19 @@ def predicates(c, ri, rm):
         if e:
             out.append("merged conditional for cell %d is not well-formed: %s" % (k, e))
             break
-    if rm[0] == "OK" and not out:
-        # the property defines the merged table as the exact composition inversion - product - inversion, which is what
-        # the model computes (merge_is_composition): a difference well beyond rounding is a failing input of the property
-        d = [abs(Fraction(v) - q) for v, q in zip(vals, rm[1]) if q is not None]
-        if d and max(d) > Fraction(1, 16):
-            out.append("merged table differs from the exact composition of inversion, product and inversion by %.3g" % float(max(d)))
-    if rm[0] == "OK" and c.tag in ("impossible_cell", "property_example", "known_finding", "corpus"):
+    if rm[0] == "OK":
         for k in range(n1 * n2):
             # the guard makes the cell exactly vacuous or leaves it to rounding noise: no conditioning allowance
             if rm[1][k * (ny + 1) + ny] == 1 and abs(Fraction(vals[k * (ny + 1) + ny]) - 1) > TOL[c.ty] * 4:
                 out.append("an impossible joint value (cell %d) received the confident opinion %r instead of the "
                            "vacuous one" % (k, vals[k * (ny + 1):(k + 1) * (ny + 1)]))
                 break
+    if rm[0] == "OK" and not out:
+        # the property defines the merged table as the exact composition inversion - product - inversion, which is what
+        # the model computes (merge_is_composition): a difference well beyond rounding is a failing input of the property
+        d = [abs(Fraction(v) - q) for v, q in zip(vals, rm[1]) if q is not None]
+        if d and max(d) > Fraction(1, 16):
+            out.append("merged table differs from the exact composition of inversion, product and inversion by %.3g" % float(max(d)))
     return out
 
 
